@@ -259,7 +259,19 @@ func (m *c35Mock) sortedNames() []uint64 {
 
 func (m *c35Mock) List(_ context.Context, _ backend.FileType, fn func(backend.FileInfo) error) error {
 	f := m.pop()
+	// unstable listing order: every attempt lists in its own order, derived from the number of script
+	// directives left (model: lorder): rotate by it, reverse when it is odd
 	ns := m.sortedNames()
+	if n := len(ns); n > 0 {
+		j := len(m.script)
+		r := j % n
+		ns = append(append([]uint64(nil), ns[r:]...), ns[:r]...)
+		if j%2 == 1 {
+			for a, b := 0, n-1; a < b; a, b = a+1, b-1 {
+				ns[a], ns[b] = ns[b], ns[a]
+			}
+		}
+	}
 	var ferr error
 	e := -1
 	switch f.kind {
@@ -593,6 +605,17 @@ func engineC35(c *vctx) error {
 		emit("corpus", c35Case{flaky: flaky, mode: "inf", store: st, script: three, ops: []c35Op{{kind: "List", cancelAfter: 1}, {kind: "Stat", name: 1, cancelAfter: 1}, {kind: "Remove", name: 1, cancelAfter: 3}}})
 		emit("corpus", c35Case{flaky: flaky, mode: "inf", store: st, script: []c35Fault{F(c35FBefore, 0, c35Perm), F(c35FBefore, 0, c35Perm)}, ops: []c35Op{{kind: "Load", name: 1, cancelAfter: 1}, {kind: "Load", name: 1}}})
 		emit("corpus", c35Case{flaky: flaky, mode: "inf", store: st, script: []c35Fault{F(c35FBefore, 0, c35Trans)}, ops: []c35Op{{kind: "Load", name: 1, cancelAfter: 2}}})
+	}
+	// unstable listing order: partial listings followed by retries that list in another order
+	for _, pad := range []int{0, 1, 2, 3} {
+		st := map[uint64][]byte{1: {1}, 2: {2}, 3: {}, 4: {4}, 5: {5, 5}}
+		for _, k := range []int{1, 2, 4} {
+			sc := []c35Fault{F(c35FPartial, k, c35Trans), F(c35FPartial, k+1, c35Trans)}
+			for i := 0; i < pad; i++ {
+				sc = append(sc, c35Fault{})
+			}
+			emit("corpus", c35Case{mode: "inf", store: st, script: sc, ops: []c35Op{{kind: "List"}, {kind: "List", fnfail: 3}}})
+		}
 	}
 	// flaky: five permanent errors interleaved with transient ones
 	emit("corpus", c35Case{flaky: true, mode: "inf", store: map[uint64][]byte{1: {1}}, ops: []c35Op{{kind: "Load", name: 1}, {kind: "Load", name: 1}},
